@@ -85,7 +85,7 @@ func runStress(seed uint64, idx int, col *vc.Collector) {
 					if m == n {
 						continue
 					}
-					switch rr.Intn(12) {
+					switch rr.Intn(14) {
 					case 0, 1:
 						do("register", func() { n.Register(m.SKI) })
 					case 2:
@@ -111,6 +111,13 @@ func runStress(seed uint64, idx int, col *vc.Collector) {
 						do("allow-wait", func() { n.App.AllowWait.Store(rr.Bool()) })
 					case 11:
 						do("qr", func() { _ = n.Mgr.QRCodeText() })
+					case 12, 13:
+						// a SKI the hub has never seen (first appearance through the public API)
+						fresh := fmt.Sprintf("%036x%04x", 0xfeed, rr.Intn(65536))
+						do("lookup-unknown-ski", func() {
+							_ = n.PairingState(fresh)
+							_ = n.Hub.ServiceForSKI(fresh).Trusted()
+						})
 					}
 					time.Sleep(time.Duration(rr.Intn(120)) * time.Millisecond)
 				}
